@@ -58,6 +58,7 @@ THEOREMS = [_P + n for n in [
     "parser_loops_progress_or_break",
     "generator_unguarded_optional_accesses_known",
     "Fmt.format_walk_guarded_safe", "Fmt.format_walk_find_index_error", "Fmt.builder_string_lookaheads_guarded",
+    "Fmt.index_first_truthy_guard_safe", "Fmt.index_first_not_none_guard_index_error", "Fmt.local_list_indexes_guarded",
 ]]
 
 # step budgets for the search oracle, calibrated on the clean tree with ≥ 10x margin (cov["calibration"] in the evidence
@@ -560,6 +561,93 @@ def string_index_facts(chk: Check):
     return sorted(set(rows))
 
 
+def local_list_index_facts(chk: Check):
+    """every CONSTANT index into a local / attribute list (`tokens[0]`, `parts[-1]`, `args[0]`, `self._prev_comments[0]` …) in
+    parser.py and parsers/*.py with the truthiness / length guard that dominates it: the list name itself as a test or
+    `and`-conjunct, a test mentioning `len(<list>)`, or the negation of an early-exit test (`if not xs: return`).  An
+    `is not None` test does not count: an empty list passes it."""
+    import glob
+
+    def exits(stmts):
+        for st in stmts:
+            if isinstance(st, (ast.Break, ast.Return, ast.Raise, ast.Continue)):
+                return True
+            if isinstance(st, ast.If) and st.orelse and exits(st.body) and exits(st.orelse):
+                return True
+        return False
+
+    def neg(t):
+        if isinstance(t, ast.UnaryOp) and isinstance(t.op, ast.Not):
+            return _src(t.operand)
+        return "not (" + _src(t) + ")"
+
+    rows = []
+    for path in [os.path.join(REPO, "sqlglot", "parser.py")] + sorted(glob.glob(os.path.join(REPO, "sqlglot", "parsers", "*.py"))):
+        mod = os.path.basename(path)[:-3]
+        try:
+            tree = ast.parse(open(path, encoding="utf-8").read())
+        except Exception:  # noqa
+            chk.broken.append({"kind": "translator", "what": f"C05 translator: cannot parse {path}"})
+            continue
+        for fn in [n for n in ast.walk(tree) if isinstance(n, ast.FunctionDef)]:
+            def visit_block(stmts, guards):
+                g = list(guards)
+                for st in stmts:
+                    visit(st, g)
+                    if isinstance(st, ast.If) and exits(st.body) and not st.orelse:
+                        t_ = st.test
+                        g = g + ([neg(v) for v in t_.values] if isinstance(t_, ast.BoolOp) and isinstance(t_.op, ast.Or) else [neg(t_)])
+
+            def visit(node, guards):
+                if isinstance(node, (ast.FunctionDef, ast.Lambda)) and node is not fn:
+                    return
+                if isinstance(node, (ast.If, ast.While)):
+                    visit(node.test, guards)
+                    visit_block(node.body, guards + [_src(node.test)])
+                    visit_block(node.orelse, guards + [neg(node.test)])
+                    return
+                if isinstance(node, ast.For):
+                    visit(node.iter, guards)
+                    visit_block(node.body, guards)
+                    visit_block(node.orelse, guards)
+                    return
+                if isinstance(node, ast.Try):
+                    visit_block(node.body, guards)
+                    for h in node.handlers:
+                        visit_block(h.body, guards)
+                    visit_block(node.orelse, guards)
+                    visit_block(node.finalbody, guards)
+                    return
+                if isinstance(node, ast.With):
+                    visit_block(node.body, guards)
+                    return
+                if isinstance(node, ast.IfExp):
+                    visit(node.test, guards)
+                    visit(node.body, guards + [_src(node.test)])
+                    visit(node.orelse, guards + [neg(node.test)])
+                    return
+                if isinstance(node, ast.BoolOp) and isinstance(node.op, (ast.And, ast.Or)):
+                    acc = list(guards)
+                    for v in node.values:
+                        visit(v, acc)
+                        acc = acc + [_src(v) if isinstance(node.op, ast.And) else neg(v)]
+                    return
+                if isinstance(node, ast.Subscript) and isinstance(node.ctx, ast.Load) and isinstance(node.value, (ast.Name, ast.Attribute)):
+                    sl = node.slice
+                    isint = (isinstance(sl, ast.Constant) and isinstance(sl.value, int) and not isinstance(sl.value, bool)) or (
+                        isinstance(sl, ast.UnaryOp) and isinstance(sl.op, ast.USub) and isinstance(sl.operand, ast.Constant)
+                        and isinstance(sl.operand.value, int))
+                    if isint:
+                        nm = _src(node.value)
+                        ok = [g for g in guards if g == nm or ("len(" + nm + ")") in g]
+                        rows.append((f"{mod}.{fn.name}", " ".join(_src(node).split()), ok[-1] if ok else ""))
+                for ch in ast.iter_child_nodes(node):
+                    visit(ch, guards)
+
+            visit_block(fn.body, [])
+    return sorted(set(rows))
+
+
 def find_parser_facts(chk: Check):
     """the two key functions of Parser._find_parser (trie key of a token text, dict key of the consumed texts) and the key
     function every SHOW_TRIE / SET_TRIE is built with, by ast"""
@@ -697,6 +785,9 @@ def translate(chk: Check) -> str:
         "-- index-arithmetic lookups into strings / argument lists in builders and helpers: (function, access, dominating bounds guard)\n",
         "def stringIndexSites : List (String × String × String) := [\n" + ",\n".join(
             f"  ({lean_str(f)}, {lean_str(x)}, {lean_str(g)})" for f, x, g in string_index_facts(chk)) + "]\n",
+        "-- constant indexes into local / attribute lists in parser.py and parsers/*.py: (function, access, dominating truthiness / length guard)\n",
+        "def localListIndexSites : List (String × String × String) := [\n" + ",\n".join(
+            f"  ({lean_str(f)}, {lean_str(x)}, {lean_str(g)})" for f, x, g in local_list_index_facts(chk)) + "]\n",
         "-- Parser glue\n",
         _lean_strs("retreatBody", pf["retreat"]),
         _lean_strs("tryParseFinally", pf["try_finally"]),
@@ -1061,7 +1152,11 @@ def cycle_frame(e: BaseException) -> str:
     if not cnt:
         return "?"
     m = max(cnt.values())
-    return sorted(k for k, v in cnt.items() if v >= m - 2)[0]
+    cands = sorted(k for k, v in cnt.items() if v >= m - 2)
+    # the statement dispatcher `_parse_statement` (base or a dialect override that just calls super) is part of every
+    # statement-level cycle: name the cycle after the method that re-enters it
+    specific = [k for k in cands if k.split(".")[-1] != "_parse_statement"]
+    return (specific or cands)[0]
 
 
 def stack_names(e: BaseException) -> list:
@@ -1437,7 +1532,7 @@ def prefix_sweep(dialects, quick=False):
                     ds = [own]        # quick tier: dialect statements in their own dialect only (base is covered by STATIC_CORPUS)
                 for di, d in enumerate(ds):
                     yield pre, d
-                    if not quick or (d == "" and pi % 2 == 0) or len(ds) == 1:
+                    if not quick or pi % 3 == 0:
                         yield pre + "; SELECT 2", d
 
 
@@ -1584,7 +1679,7 @@ def tokenizer_stream(dialect, rng, quick=True):
     words += extra if not quick else rng.sample(extra, min(25, len(extra)))
     for k in words:
         for v in (case_variants(k)[:4] if quick else case_variants(k)):
-            for cont in (TOK_CONTINUATIONS[:7] if quick else TOK_CONTINUATIONS):
+            for cont in (TOK_CONTINUATIONS[:5] if quick else TOK_CONTINUATIONS):
                 body = v + cont.replace("{K}", v)
                 yield body
                 yield "SELECT " + body
@@ -1733,6 +1828,8 @@ def trie_key_sweep(dialect, quick=True):
                 variants += [" ".join(words[:-1]) + "  " + words[-1], words[0] + " ", "\n".join(words)]
             if not quick:
                 variants += [key.title() + "  ", " " + key + " ", key + "\r\n", key.swapcase() + "\t"]
+            else:
+                variants = variants[:5] + variants[8:9]
             for v in variants:
                 for qa, qb in quotes:
                     tokq = qa + v + qb
@@ -1811,6 +1908,30 @@ def builder_literal_sweep(dialect, quick=True):
                     yield f"SELECT {name}(x, y, {lit})"
 
 
+DEGENERATE_TEXTS = ["", " ", "  ", "\t", "/* c */", "-- c", "INT", "int ", "SELECT", ";", "(", "a b", "1", "'"]
+IDENT_POSITIONS = ["SELECT CAST(1 AS {Q})", "SELECT 1::{Q}", "CREATE TABLE t (c {Q})", "SELECT TRY_CAST(1 AS {Q})",
+                   "CREATE FUNCTION f() RETURNS {Q} AS 'x'", "ALTER TABLE t ADD COLUMN c {Q}", "SELECT CAST(1 AS ARRAY<{Q}>)",
+                   "SELECT * FROM {Q}", "SELECT {Q} FROM t", "SELECT {Q}.{Q} FROM t", "SELECT a AS {Q}", "CREATE TABLE {Q} (a INT)",
+                   "SELECT CAST(1 AS STRUCT<a {Q}>)", "SELECT {Q}(1)", "DECLARE x {Q}", "SELECT CAST(1 AS {Q}(10))"]
+
+
+def degenerate_identifier_sweep(dialect, quick=True):
+    """quoted identifiers with degenerate texts (empty, blanks, comment-only, a keyword, punctuation, a lone quote) in every
+    syntactic position that re-interprets identifier text — type positions (CAST / :: / column definitions / return types /
+    nested types) and table / column / alias / function names — with the dialect's own quote characters"""
+    *_, Dialect, _ = sg()
+    tk = Dialect.get_or_raise(dialect or None).tokenizer_class
+    quotes = sorted((getattr(tk, "_IDENTIFIERS", {}) or {'"': '"'}).items())
+    texts = DEGENERATE_TEXTS[:9] if quick else DEGENERATE_TEXTS
+    positions = IDENT_POSITIONS[:11] if quick else IDENT_POSITIONS
+    for qa, qb in (quotes[:1] if quick else quotes):
+        for tx in texts:
+            if qb in tx:
+                continue
+            for pos in positions:
+                yield pos.replace("{Q}", qa + tx + qb)
+
+
 def element_words(dialect) -> list:
     """words that start a constraint / property / statement parser of this dialect, plus punctuation: what a list element
     parser may half-consume and give back"""
@@ -1825,8 +1946,8 @@ def element_words(dialect) -> list:
     return sorted(words)
 
 
-def element_sweep(dialect):
-    for tpl in ELEMENT_TEMPLATES[:12]:
+def element_sweep(dialect, n_tpl=12):
+    for tpl in ELEMENT_TEMPLATES[:n_tpl]:
         for w in element_words(dialect):
             yield tpl.replace("{R}", w)
 
@@ -2788,7 +2909,7 @@ def search(chk: Check, hints: list, budget_s: float) -> None:
         one(sql, d, lvl, write, "corpus")
     # deterministic sweep: every constraint / property keyword in element position of column lists and schema definitions
     for d in ["", rng.choice(dialects)]:
-        for i, sql in enumerate(element_sweep(d)):
+        for i, sql in enumerate(element_sweep(d, 8 if chk.quick else 12)):
             if len(chk.violations) >= MAXV:
                 break
             one(sql, d, LEVELS[1 + (i % 3)], None, "element-sweep")
@@ -2833,7 +2954,7 @@ def search(chk: Check, hints: list, budget_s: float) -> None:
         words = tkw["loop"] if not d else tkw["specific"]
         if not chk.quick:
             words = tkw["all"] if not d else sorted(set(tkw["specific"]) | set(rng.sample(tkw["all"], min(25, len(tkw["all"])))))
-        shape = (None, None) if not chk.quick else ((5, 6) if not d else (8, 6))
+        shape = (None, None) if not chk.quick else ((4, 5) if not d else (8, 5))
         for i, sql in enumerate(keyword_sweep(d, words, *shape)):
             if len(chk.violations) >= MAXV or time.time() - t0 > budget_s:
                 break
@@ -2850,6 +2971,15 @@ def search(chk: Check, hints: list, budget_s: float) -> None:
                     break
                 one(form.replace("{K}", w), d, LEVELS[i % 4], None, "keyword-sweep")
                 n_sweep += 1
+    # quoted identifiers with degenerate texts in every position that re-interprets identifier text
+    n_di = 0
+    for d in dialects:
+        for i, sql in enumerate(degenerate_identifier_sweep(d, chk.quick)):
+            if len(chk.violations) >= MAXV or time.time() - t0 > budget_s:
+                break
+            one(sql, d, LEVELS[i % 4], None, "degenerate-identifier")
+            n_di += 1
+    chk.cov["degenerate_identifier_inputs"] = n_di
     # function builders that look inside a string-literal argument, with adversarial literals
     _SEEN_BUILDERS.clear()
     n_bl = 0
@@ -2870,7 +3000,7 @@ def search(chk: Check, hints: list, budget_s: float) -> None:
             n_sweep += 1
     chk.cov["keyword_sweep_inputs"] = n_sweep
     # a fixed number of inputs per tier (deterministic for a given VERIF_SEED), with the time budget as a safety cap
-    n_inputs = int(os.environ.get("C05_INPUTS", "0")) or (chk.pick(1200, 70000) * (2 if chk.broken else 1))
+    n_inputs = int(os.environ.get("C05_INPUTS", "0")) or (chk.pick(700, 70000) * (2 if chk.broken else 1))
     for _ in range(n_inputs):
         if time.time() - t0 > budget_s or len(chk.violations) >= MAXV:
             break
